@@ -14,6 +14,12 @@ def run():
     ck.add_model('MCDataset', r, 'N=%d items, 2 threads, every pair of disjoint (start,count) requests, every interleaving of single-item writes' % (16 if ck.thorough else 13))
     if not r['ok']:
         ck.violation('model:Dataset', 'range-splitting model violates an invariant', vlib.tlc_error_summary(r['out'], 50))
+    # the same range-splitting facts for EVERY start and count (not only N items): TLAPS proofs about DatasetSplit!InnerCalls
+    pr = vlib.tlaps('DatasetLemma')
+    ck.cov['parts']['DatasetLemma(TLAPS)'] = {'what': 'for all start, count in Nat: inner calls are positive multiples of 4 inside the request; for count >= 4 the items they write are exactly the requested ones',
+                                              'obligations_proved': pr['proved'], 'ok': pr['ok'], 'wall_s': round(pr['wall'], 1)}
+    if not pr['ok']:
+        vlib.log('[c08] WARNING: TLAPS did not re-prove DatasetLemma (rc=%s): %s' % (pr['rc'], pr['out'][-300:]))
     exe = vlib.build_harness('rx_ds', extra=['-fno-access-control'])
 
     def go(jit):
